@@ -10,6 +10,7 @@
 import SimVerif.Kernel
 import SimVerif.Queue
 import SimVerif.Tcp
+import SimVerif.Nat
 import SimVerif.Pcap
 import SimVerif.Resolver
 import SimVerif.Drv.Ext
@@ -195,11 +196,6 @@ def applyQEffs (p : KParams) (qi : Nat) (effs : List QEff) (s : KSt) : KSt :=
 def ip4 (a : String) : Nat :=
   (a.splitOn ".").foldl (fun acc x => acc * 256 + (x.toNat?.getD 0)) 0
 
-def natRewrite (src ext : String) : String :=
-  match (src.splitOn ":").getLast? with
-  | some port => ext ++ ":" ++ port
-  | none => src
-
 /-- the kernel timer standing for an internal timer object (allocated on first use) -/
 def KSt.itimer (s : KSt) (owner : String) (slot : Nat) : KSt × Nat :=
   match s.itimers.lookup (owner, slot) with
@@ -257,11 +253,9 @@ def forwardPkt (p : KParams) : Nat → Pkt → KSt → KSt
       | some .hole => s
       | some .probe => forwardPkt p f pk (s.emit (describePkt "P" name s.k.now pk pk.hasDrop))
       | some (.nat ext) =>
-        -- rewrites `from`, and on a SYN the connecting side's visible endpoint
-        let s := match pk.ty, pk.chan.bind s.net.chan? with
-          | .syn, some ch => { s with net := s.net.setChan (pk.chan.getD 0) { ch with vis0 := { ch.vis0 with addr := ext } } }
-          | _, _ => s
-        forwardPkt p f { pk with src := natRewrite pk.src ext } s
+        -- rewrites `from`, and on a SYN the connecting side's visible endpoint: SimVerif/Nat.lean
+        let r := natApply ext pk s.net.chans
+        forwardPkt p f r.1 { s with net := { s.net with chans := r.2 } }
       | some (.echo route ty len ovh) =>
         forwardPkt p f { id := 100000 + pk.id, ty := ty, len := len, ovh := ovh, hops := route, src := "0.0.0.0:0" } s
       | some (.dropper di) =>
